@@ -147,7 +147,7 @@ func init() {
 		[]Stage{en("c19bloom", 16, 900, prm("full32", true)), en("c18table", 16, 300, prm("bloom_only", true, "full_grid", true))})
 
 	planTable["C04"] = enumPlan("exploration",
-		"Every sequence of up to 2 (quick) / 3 (thorough) pending writes out of 20 (Set, Delete, SetEntry with user meta and a future expiry, SetEntry with a past expiry; over keys {a, a\\x00, ab, b, \\xff}) inside a read-write transaction on top of each of 4 committed snapshots (empty; values in a deeper level / L0 / memtable with a tombstone; two versions of every key; tombstones over deeper values, value-log values, newest commit exactly at the read timestamp). After the sequence: Get of every key (Value and ValueCopy, user meta, expiry, version) and iterators in both directions x AllVersions x Prefix {none,a,ab} x SinceTs {0, readTs-1, readTs}, from Rewind and from Seek to every key and 4 probes, equal the reference overlay (pending entry shadows the snapshot at version readTs; deletion and expiry hide the key). Every iterator created before a later write is walked at the end and must not contain that write; a transaction begun before and one begun after the writes never see them.",
+		"Every sequence of up to 2 (quick) / 3 (thorough) pending writes out of 25 (Set, Set with an empty value, Delete, SetEntry with user meta and a future expiry, SetEntry with a past expiry; over keys {a, a\\x00, ab, b, \\xff}) inside a read-write transaction on top of each of 4 committed snapshots (empty; values in a deeper level / L0 / memtable with a tombstone; two versions of every key; tombstones over deeper values, value-log values, newest commit exactly at the read timestamp). After the sequence: Get of every key (Value and ValueCopy, user meta, expiry, version) and iterators in both directions x AllVersions x Prefix {none,a,ab} x SinceTs {0, readTs-1, readTs}, from Rewind and from Seek to every key and 4 probes, equal the reference overlay (pending entry shadows the snapshot at version readTs; deletion and expiry hide the key). Every iterator created before a later write is walked at the end and must not contain that write; a transaction begun before and one begun after the writes never see them.",
 		"Normal-mode on-disk DB; the transaction is discarded after each case so the snapshot is shared.",
 		"nested enumeration, shortest sequences first; distinct = distinct (snapshot, write sequence)",
 		[]Stage{en("c04ryow", 16, 90, prm("len", 2))},
@@ -162,14 +162,14 @@ func init() {
 
 	planTable["C06"] = func(q bool) *Plan {
 		p := &Plan{Level: "model_checking", Engine: "E-enum + E-sched",
-			Text:      "Static thresholds {1, 32, 1024} (on disk; 1024 also in memory): every combination of value size {0, 1, T-1, T, T+1, 2T}, user meta {0, 0xFF}, expiry {none, future}, discard-earlier flag and transaction shape {alone, two entries on the same side, two entries on opposite sides of the threshold}; every record is read through Get+Value, ValueCopy, a prefetching, a non-prefetching and a reverse iterator before flush, after flush, after a compaction to a deeper level and after re-opening with the same, a smaller and a larger threshold: bytes, user meta, expiry, version and discard flag equal what was written and the value-pointer bit agrees with the entry's own threshold. Dynamic threshold (VLogPercentile 0.5 and 0.75; 16 cases of value sizes): after a prefix that raises the threshold to about 900, three committers race - a tiny commit that keeps badger's writer goroutine busy so that the next two requests are written as one batch, a value of 200 or 40 bytes (below the current threshold) and 1 or 3 small values that pull the percentile below it - with the writer goroutine and the threshold listener as scheduled threads (points at the value-log write, the LSM write, the histogram update and the listener's store), so the threshold drops between the value-log write and the LSM write of an in-flight entry: under every interleaving up to the preemption bound every committed value, before and after a flush, reads back exactly through all read paths.",
+			Text:      "Static thresholds {1, 32, 1024} (on disk; 1024 also in memory): every combination of value size {0, 1, T-1, T, T+1, 2T}, user meta {0, 0xFF}, expiry {none, future}, discard-earlier flag and transaction shape {alone, two entries on the same side, two entries on opposite sides of the threshold}; every record is read through Get+Value, ValueCopy, a prefetching, a non-prefetching and a reverse iterator before flush, after flush, after a compaction to a deeper level and after re-opening with the same, a smaller and a larger threshold: bytes, user meta, expiry, version and discard flag equal what was written and the value-pointer bit agrees with the entry's own threshold. Dynamic threshold (VLogPercentile 0.5 and 0.75; 16 cases of value sizes): after a prefix that raises the threshold to about 900, three committers race - a tiny commit that keeps badger's writer goroutine busy so that the next two requests are written as one batch, a value of 200 or 40 bytes (below the current threshold) and 1 or 3 small values that pull the percentile below it - with the writer goroutine and the threshold listener as scheduled threads (points at the value-log write, the LSM write, the histogram update and the listener's store), so the threshold drops between the value-log write and the LSM write of an in-flight entry: under every interleaving up to the preemption bound every committed value, before and after a flush, reads back exactly through all read paths. Batches: three committers whose value-log values are written as a batch of two requests while the value log rotates to a new file between them (ValueLogMaxEntries 1; plain and encrypted): every value reads back through its pointer, before and after re-open.",
 			Note:      "The dynamic part explores interleavings at the hooked points under sequential consistency; the static part is sequential.",
 			Technique: "bounded-exhaustive enumeration (static thresholds) + stateless model checking of the writer / threshold-listener interleavings (controlled scheduler, preemption-bounded DFS)",
 			Rule:      "static: (threshold, storage, shape, user meta, expiry, discard) tuples, 6 sizes each; dynamic: (percentile, size sequence) cases x schedules up to the bound; distinct = distinct (final threshold) outcomes per case"}
 		if q {
-			p.Stages = []Stage{en("c06static", 16, 60, nil), sched("c06dyn", 1, 16, 40, prm("cases", 16)), sched("c06dyn", 2, 16, 45, prm("cases", 16))}
+			p.Stages = []Stage{en("c06static", 16, 60, nil), sched("c06dyn", 1, 16, 40, prm("cases", 16)), sched("c06dyn", 2, 16, 45, prm("cases", 16)), sched("c16rot", 2, 4, 40, prm("cases", 4))}
 		} else {
-			p.Stages = []Stage{en("c06static", 16, 300, nil), sched("c06dyn", 3, 16, 900, prm("cases", 16))}
+			p.Stages = []Stage{en("c06static", 16, 300, nil), sched("c06dyn", 3, 16, 900, prm("cases", 16)), sched("c16rot", 3, 4, 600, prm("cases", 4))}
 		}
 		return p
 	}
@@ -426,14 +426,14 @@ func init() {
 
 	planTable["C25"] = func(q bool) *Plan {
 		p := &Plan{Level: "model_checking", Engine: "E-sched + E-enum",
-			Text:      "Schedules: a Stream run with two producer goroutines over four accounts that lie in different key ranges races a committer that moves an amount from the first to the last account in one transaction; the producers (points after their transaction is created and at each range pick-up) and the committer are interleaved in every way up to the preemption bound; each account must be delivered exactly once and the delivered (first, last) pair must be a state some single snapshot holds (before or after the transfer, never mixed); Send never runs concurrently with itself. Configurations (sequential): 3 layouts (memtable only / last level in several small tables / last level + L0 + memtable; 15 keys with up to 3 versions and tombstones) x NumVersionsToKeep {1,100} x NumGo {1,2,3} x Prefix {none,k0,k1} x ChooseKey {all, even, odd} x SinceTs {0, mid}: the delivered KV lists (key, version, value, user meta, expiry; grouped per key, each key once) equal what one read snapshot taken at the start shows under the default KeyToList.",
+			Text:      "Schedules: a Stream run with two producer goroutines over four accounts that lie in different key ranges races a committer that moves an amount from the first to the last account in one transaction; the producers (points after their transaction is created and at each range pick-up) and the committer are interleaved in every way up to the preemption bound; each account must be delivered exactly once and the delivered (first, last) pair must be a state some single snapshot holds (before or after the transfer, never mixed); Send never runs concurrently with itself; in a second case the committer also finishes a read, flushes and compacts the old versions away (NumVersionsToKeep 1) while the stream runs, which the stream's snapshot must survive. Configurations (sequential): 4 layouts (memtable only / last level in several small tables / last level + L0 + memtable / the same plus user keys whose bytes equal the key-range split points; 15+ keys with up to 3 versions and tombstones) x NumVersionsToKeep {1,100} x NumGo {1,2,3} x Prefix {none,k0,k1} x ChooseKey {all, even, odd} x SinceTs {0, mid}: the delivered KV lists (key, version, value, user meta, expiry; grouped per key, each key once) equal what one read snapshot taken at the start shows under the default KeyToList.",
 			Note:      "Producer goroutines are scheduled through the stream.txn / stream.range hook points; range boundaries come from the production DB.Ranges.",
 			Technique: "stateless model checking of the stream producers against a concurrent committer (controlled scheduler, preemption-bounded DFS) + bounded-exhaustive enumeration of configurations",
 			Rule:      "schedules up to the bound, distinct = distinct delivered (first,last) pairs; configurations = the full cross product"}
 		if q {
-			p.Stages = []Stage{sched("c25sched", 2, 8, 40, nil), en("c25seq", 16, 60, nil)}
+			p.Stages = []Stage{sched("c25sched", 2, 8, 40, prm("cases", 2)), en("c25seq", 16, 60, nil)}
 		} else {
-			p.Stages = []Stage{sched("c25sched", 3, 16, 300, nil), en("c25seq", 16, 300, nil)}
+			p.Stages = []Stage{sched("c25sched", 3, 16, 600, prm("cases", 2)), en("c25seq", 16, 300, nil)}
 		}
 		return p
 	}
